@@ -1,8 +1,10 @@
-"""C15 — symbolic part in props/C15_P.py (when present), bounded part in props/C15_R.py (layered-dictionary histories and lazy diffs)."""
+"""C15 — symbolic part in props/C15_P.py (BigMapType.get / update against the abstract layered view), bounded part in props/C15_R.py (layered-dictionary histories and lazy diffs)."""
 from vlib.combine import run_parts
 
 
 def run(ck):
     return run_parts(ck, 'C15', 'other', 'exploration',
+                     'S: BigMapType.get / update on big_maps with 0..3 local entries and 0..2 removed keys, symbolic int keys, symbolic id, opaque '
+                     'values of free truthiness, symbolic on-chain verdict, against the layered view (well-formedness preserved, frame); '
                      'R: histories of GET/MEM/UPDATE/GET_AND_UPDATE over 3 keys with every split between on-chain and local entries agree with a '
                      'layered dictionary; the lazy diff applied to the on-chain contents gives the final dictionary; key hashes recomputed independently')
